@@ -91,6 +91,7 @@ func New[T any](
 	tree.node.handlers = map[string]T{
 		http.MethodOptions: tree.optionsBuilder(tree.node),
 	}
+	tree.buildMethods(0) // 新对象的 OPTIONS * 也需要正确的 Allow 报头
 
 	if lock {
 		tree.locker = &sync.RWMutex{}
@@ -155,6 +156,10 @@ func (tree *Tree[T]) Clean(prefix string) {
 	}
 
 	tree.node.clean(prefix)
+
+	clear(tree.methods) // 重新统计剩余节点的请求方法
+	tree.node.countMethods(tree.methods)
+	tree.buildMethods(0)
 }
 
 // Remove 移除路由项
@@ -171,7 +176,13 @@ func (tree *Tree[T]) Remove(pattern string, methods ...string) {
 		return
 	}
 
+	removed := make([]string, 0, len(child.handlers)) // 实际被删除的请求方法
 	if len(methods) == 0 {
+		for m := range child.handlers {
+			if isCountedMethod(m) {
+				removed = append(removed, m)
+			}
+		}
 		child.handlers = nil
 	} else {
 		for _, m := range methods {
@@ -181,6 +192,9 @@ func (tree *Tree[T]) Remove(pattern string, methods ...string) {
 				delete(child.handlers, http.MethodHead)
 				fallthrough
 			default:
+				if _, found := child.handlers[m]; found && isCountedMethod(m) {
+					removed = append(removed, m)
+				}
 				delete(child.handlers, m)
 			}
 		}
@@ -203,7 +217,7 @@ func (tree *Tree[T]) Remove(pattern string, methods ...string) {
 		child = child.parent
 	}
 
-	tree.buildMethods(-1, methods...)
+	tree.buildMethods(-1, removed...)
 }
 
 // 获取指定的节点，若节点不存在，则在该位置生成一个新节点。
